@@ -323,7 +323,7 @@ def gen_c08_pop(rng, sid, maxh, mode=None, height=None, buckets=None):
             'ops': ops}
 
 
-def gen_c15(rng, sid):
+def gen_c15(rng, sid, allow_all256=False):
     buckets = rng.choice([16, 16, 256, 256, 1])
     depth = DEPTH[buckets]
     height = rng.choice([2, 3]) if buckets == 256 else rng.choice([2, 3, 4])
@@ -348,6 +348,8 @@ def gen_c15(rng, sid):
     pat = rng.choice(['none', 'one', 'some', 'some', 'all'])
     if buckets == 1:
         pat = rng.choice(['all', 'all', 'none'])
+    if buckets == 256 and pat == 'all' and not allow_all256:
+        pat = 'some'           # opening 256 buckets costs ~60 CPU-seconds in Bucket.open (globbing 256 chunks each)
     if pat == 'none':
         served = []
     elif pat == 'one':
@@ -430,6 +432,7 @@ MC_H = '''SPECIFICATION HSpec
 CONSTANTS
   MCMaxOps <- {ops}
   MCVh <- {vh}
+  MCKeys <- {keys}
   MCMut <- {mut}
 INVARIANTS C08_Incremental C08_Lazy C08_CacheSound C08_ListFn {extra}
 CHECK_DEADLOCK FALSE
@@ -446,11 +449,12 @@ CHECK_DEADLOCK FALSE
 NONE_DEF = {'HTreeList': 'MutNone', 'Route': 'RMutNone'}
 
 MC = {
-    'C08': {'quick': [('HTreeList', dict(ops='Ops3', vh='Vh2', extra=''))],
-            'thorough': [('HTreeList', dict(ops='Ops4', vh='Vh2', extra='')),
-                         ('HTreeList', dict(ops='Ops3', vh='MCVh3', extra='ShortcutLemma'))]},
+    'C08': {'quick': [('HTreeList', dict(ops='Ops4', vh='Vh2', keys='MCKeysQ', extra=''))],
+            'thorough': [('HTreeList', dict(ops='Ops4', vh='Vh2', keys='MCKeys8', extra='')),
+                         ('HTreeList', dict(ops='Ops5', vh='MCVh3', keys='MCKeysQ', extra='')),
+                         ('HTreeList', dict(ops='Ops3', vh='Vh2', keys='MCKeys8', extra='ShortcutLemma'))]},
     'C15': {'quick': [('Route', dict(depth='Depth0', alpha='Alpha3', ops='ROps3')),
-                      ('Route', dict(depth='Depth1', alpha='Alpha3', ops='ROps3')),
+                      ('Route', dict(depth='Depth1', alpha='Alpha2', ops='ROps4')),
                       ('Route', dict(depth='Depth2', alpha='Alpha2', ops='ROps3'))],
             'thorough': [('Route', dict(depth='Depth0', alpha='Alpha3', ops='ROps4')),
                          ('Route', dict(depth='Depth1', alpha='Alpha3', ops='ROps4')),
@@ -459,7 +463,7 @@ MC = {
 }
 # specification mutants: each must be rejected by TLC (the invariants are not vacuous)
 MC_MUT = {
-    'C08': [('HTreeList', dict(ops='Ops3', vh='Vh2', extra='', mut=m)) for m in ('MutNoCountDec', 'MutNoInval', 'MutFactor', 'MutLoadZero')],
+    'C08': [('HTreeList', dict(ops='Ops3', vh='Vh2', keys='MCKeysQ', extra='', mut=m)) for m in ('MutNoCountDec', 'MutNoInval', 'MutFactor', 'MutLoadZero')],
     'C15': [('Route', dict(depth='Depth2', alpha='Alpha2', ops='ROps2', mut=m)) for m in ('MutShift', 'MutNoGate')],
 }
 
@@ -501,7 +505,7 @@ def gen_scenarios(pid, tier, seed):
             scen.append(gen_c08_pop(rng, 'c08-%d-pop%03d' % (seed, i), maxh))
     else:
         for i in range(COUNTS['C15'][tier]):
-            scen.append(gen_c15(rng, 'c15-%d-%04d' % (seed, i)))
+            scen.append(gen_c15(rng, 'c15-%d-%04d' % (seed, i), allow_all256=(tier == 'thorough' and i % 100 == 7) or (tier == 'quick' and i == 7)))
     return scen
 
 
